@@ -30,7 +30,9 @@ META = dict(
                "construction of the TaskiqResult object but before on_error is not observable and not reported.",
     rule="case = dependency graph (<=7 nodes, depth <=3, six styles, cached / use_cache=False edges) x 1-2 tasks x 1-6 "
          "concurrent messages (outcome return/raise/BaseException/NoResultError/timeout/scripted dependency failure, "
-         "staggered awaits) x propagate x ack type; non-trivial iff some execution opened >= 2 yielding dependencies, or a "
+         "staggered awaits) x propagate x ack type x how the Receiver comes to exist (built directly / worker command line / "
+         "run_receiver_task / an InMemoryBroker fresh, started or restarted after shutdown, deliveries sent through its "
+         "kick() or the task's kicker); non-trivial iff some execution opened >= 2 yielding dependencies, or a "
          "dependency failed while opening, or the body timed out; distinct by case content",
     trusted_base=["model: coq/theories/Deps.v (hand-written from taskiq/receiver/receiver.py run_task/callback and "
                   "taskiq_dependencies/ctx.py close/resolver)",
@@ -76,6 +78,8 @@ def explore(ctx, rep, cases, label):
         rep.count("concurrent:%d" % len(ex))
         rep.count("propagate:%s" % c.get("propagate", True))
         rep.count("ack:%s" % c.get("ack", "when_saved"))
+        for key in L.path_profile(c):
+            rep.count(key)
         for key in L.sharing_profile(c, ex):
             rep.count(key)
         for d in ex:
